@@ -120,7 +120,9 @@ pub fn is_vint(val: u64) -> bool {
         return false;
     }
 
-    (val.ilog2() % 7) == 0
+    // A vint of n bytes (1..=8) has its length marker at bit 7n of its value
+    let marker = val.ilog2();
+    marker >= 7 && marker <= 56 && (marker % 7) == 0
 }
 
 ///
